@@ -1,6 +1,7 @@
 package main
 
 import (
+	"regexp"
 	"fmt"
 	"go/ast"
 	"go/token"
@@ -285,6 +286,16 @@ func c16Guards(c *Ctx, ge *GuardEngine) {
 		req("v4-free:old-root", v4+"VerifyFreeSectorsProof", root, opNE, H(1), "the proof must reproduce the old root"),
 		req("v4-free:new-root", v4+"VerifyFreeSectorsProof", root, opNE, H(2), "the modified proof must reproduce the new root"),
 		req("v4-free:no-leftover", v4+"VerifyFreeSectorsProof", "len({[]types.Hash256})", opNE, "const:0", "left-over tree hashes are rejected", any),
+	}
+	// "no left-over": what remains of the tree-hash argument after consumption must be empty; the remainder is
+	// the (re-sliced) parameter itself or the slice a consuming helper returns for it
+	// (a loop-carried remainder is elided in the atom, so a call result counts unless it names another hash slice)
+	leftoverRe := regexp.MustCompile(`^len\((\{\[\]types\.Hash256\}|call .*)\)$`)
+	leftover := func(a string) bool { return leftoverRe.MatchString(a) && !strings.Contains(a, "{[]types.Hash256#") }
+	for i := range tab {
+		if strings.HasSuffix(tab[i].ID, ":no-leftover") {
+			tab[i].LFn = leftover
+		}
 	}
 	runGuardTable(c, "verifier-guard", ge, tab)
 	c.Min("verifier-guard", len(tab))
